@@ -55,6 +55,14 @@ PROP = {  # keyword in subject -> (property, what failed)
  "verifies every remaining vkey witness": ("C35", "witnesses [valid K0, valid K1, corrupt K2] accepted: check_remaining_vk_wits returned at the first valid uncovered witness"),
  "size of the serialised transaction": ("C36", "Shelley..Alonzo: validator size = ledger size - 2; fee a*L+b-1 and max_tx_size L-1 accepted"),
  "does not count the validity flag": ("C36", "Babbage/Conway: validator size = ledger size + 1; fee a*L+b and max_tx_size = L rejected"),
+ "max_value_size in bytes": ("C38", "output whose value serialises to ~5.3 kB accepted with max_value_size 5000: words compared with a byte limit (alonzo, babbage, conway)"),
+ "each candidate native script on its own": ("C38", "shelley_ma: input locked by H(00|script1|script2) accepted with witnesses [script1, script2]; valid tx with two native-script inputs rejected"),
+ "Plutus-locked inputs only": ("C38", "babbage: unneeded redeemer for a native-script-locked input accepted; valid native-script spends rejected with RedeemerMissing"),
+ "minimum lovelace of the collateral return": ("C38", "babbage/conway: collateral return of 1 lovelace accepted"),
+ "network id of the collateral return": ("C38", "babbage/conway: collateral return to a testnet address accepted on mainnet"),
+ "collateral of any era is key-locked": ("C38", "babbage/conway: script-locked collateral created in a previous era accepted (check skipped)"),
+ "Byron-era collateral entry": ("C38", "alonzo: Byron-era collateral entry of 1 lovelace accepted (amount check skipped)"),
+ "repeated collateral input": ("C38", "babbage/conway: collateral [c, c] counted twice in the collateral balance"),
  "CostModels encodes": ("C06", "conway CostModels{unknown:{3:[1]}} encoded as a0 and decoded with unknown:{}"),
 }
 log = subprocess.run(["git","-C","/repo","log","--format=%h\t%s","--grep=^fix:"],capture_output=True,text=True).stdout.strip().splitlines()
